@@ -17,8 +17,9 @@ CONSTANTS MaxBody, Export, Redefs
 VARIABLES fl, al, body, redef, phase, st
 vars == <<fl, al, body, redef, phase, st>>
 
-T(k, n) == [k |-> k, n |-> n, a |-> <<>>, g |-> FALSE]
-UseT(n, args) == [k |-> "use", n |-> n, a |-> args, g |-> FALSE]
+T(k, n) == [k |-> k, n |-> n, a |-> <<>>, g |-> FALSE, s |-> ""]
+UseT(n, args) == [k |-> "use", n |-> n, a |-> args, g |-> FALSE, s |-> ""]
+DefT(n, v) == [k |-> "def", n |-> n, a |-> <<T("lit", v)>>, g |-> FALSE, s |-> v]
 Dflt(toks) == <<[src |-> "", toks |-> toks]>>
 
 FL == { <<>>,                                                    \* no formal list
@@ -39,8 +40,8 @@ AL == { <<>>,
 
 BodyAlpha == { T("lit", "k"), T("id", "x"), T("id", "y"), T("id", "z"), T("paste", ""),
                T("str", "\"x\""), UseT("N", <<>>), UseT("N1", << << <<T("id", "x")>> >> >>),
-               [k |-> "bqs", n |-> "", a |-> <<T("lit", "s "), T("id", "x"), T("lit", " e")>>, g |-> FALSE],
-               T("cont", ""), T("undef", "N") }
+               [k |-> "bqs", n |-> "", a |-> <<T("lit", "s "), T("id", "x"), T("lit", " e")>>, g |-> FALSE, s |-> ""],
+               T("cont", ""), T("undef", "N"), DefT("N", "n3") }
 
 \* `` only between two plain tokens (what the generators are restricted to, Appendix A.4)
 Pastable(t) == t.k \in {"lit", "id"}
@@ -50,6 +51,7 @@ Pastable(t) == t.k \in {"lit", "id"}
 \* on its own by the lexical specification PpLex (C06), not here.
 CanAppend(b, t) ==
   IF b = <<>> THEN t.k # "paste"
+  ELSE IF Last(b).k = "def" THEN t.k = "cont"            \* a `define inside a body ends its line
   ELSE IF Last(b).k \in {"str", "bqs"} /\ t.k = "use" THEN FALSE
   ELSE IF t.k = "paste" THEN Pastable(Last(b))
   ELSE IF Last(b).k = "paste" THEN Pastable(t) ELSE TRUE
@@ -60,7 +62,7 @@ SimpleActuals(a) == IF a = <<>> THEN TRUE
 NeedsSimple(b) == \E i \in 1..Len(b) : b[i].k \in {"bqs", "paste"}
 \* a body that ends in an argument-less usage, in a macro without formals used WITH an argument list: the restored
 \* list would be read as the arguments of that trailing usage (the abstract items and the concrete text differ)
-TrailingUseGetsList(f, a, b) == f = <<>> /\ a # <<>> /\ b # <<>> /\ Last(b).k = "use" /\ Last(b).a = <<>>
+TrailingUseGetsList(f, a, b) == f = <<>> /\ a # <<>> /\ b # <<>> /\ ((Last(b).k = "use" /\ Last(b).a = <<>>) \/ Last(b).k = "def")   \* (or of a trailing `define's body)
 Allowed(a, b) == (NeedsSimple(b) => SimpleActuals(a)) /\ ~TrailingUseGetsList(fl, a, b)
 
 MkItem(k, n) == [k |-> k, n |-> n, a |-> <<>>, b |-> <<>>, f |-> 0, ts |-> <<>>, to |-> <<>>, off |-> 0, ln |-> 0, ln2 |-> 0, g |-> FALSE]
@@ -115,6 +117,10 @@ Rescan(ts, defs, depth) ==
        LET r == Rescan(Tail(ts), defs, depth) IN IF ~r.ok THEN r ELSE ROk(<<[t |-> h.n, g |-> h.g]>> \o r.toks, r.defs)
   ELSE IF h.k = "gap" THEN
        LET r == Rescan(Tail(ts), defs, depth) IN IF ~r.ok THEN r ELSE ROk(<<[t |-> "", g |-> FALSE]>> \o r.toks, r.defs)
+  ELSE IF h.k = "def" THEN
+       LET e == [n |-> h.n, none |-> FALSE, f |-> 0, a |-> <<>>, b |-> <<[src |-> h.s, toks |-> h.a, boff |-> 0]>>, file |-> "?", off |-> 0]
+           r == Rescan(Tail(ts), DefSet(defs, e), depth) IN
+       IF ~r.ok THEN r ELSE ROk(<<[t |-> "`", g |-> FALSE], [t |-> "define", g |-> FALSE], [t |-> h.n, g |-> FALSE]>> \o [i \in 1..Len(h.a) |-> [t |-> h.a[i].n, g |-> FALSE]] \o r.toks, r.defs)
   ELSE IF h.k = "undef" THEN
        LET r == Rescan(Tail(ts), DefDel(defs, h.n), depth) IN
        IF ~r.ok THEN r ELSE ROk(<<[t |-> "`", g |-> FALSE], [t |-> "undef", g |-> FALSE], [t |-> h.n, g |-> FALSE]>> \o r.toks, r.defs)
